@@ -637,7 +637,8 @@ struct Runner : IRunner {
                 if (b != (rc > 0)) v01("erase_one returns " + std::to_string(b) + " with " + std::to_string(rc) + " equivalent entries present");
                 // which of the equivalent entries went away?  remove exactly that one from the reference
                 std::vector<Ent> after = contents(r);
-                std::vector<Ent> cb = canon(before), ca = canon(after), gone;
+                std::vector<Ent> cb = before, ca = after, gone;
+                std::sort(cb.begin(), cb.end()); std::sort(ca.begin(), ca.end());   // multiset difference
                 std::set_difference(cb.begin(), cb.end(), ca.begin(), ca.end(), std::back_inserter(gone));
                 if (rc > 0) {
                     if (gone.size() == 1 && equiv(gone[0].first, k) && before.size() == after.size() + 1) rerase_exact(r, gone[0]);
